@@ -1,0 +1,5 @@
+//go:build !verif
+
+package smtp
+
+func verifBdatStart() {}
